@@ -76,8 +76,11 @@ def case_tx(case, res):
             bad('cursor', got=d.cursor, want=len(pre) + len(raw))
         if bytes(h) != tx.txid:
             bad('hash-not-over-consumed-bytes')
-        if got.serialize() != raw:
-            bad('serialize-roundtrip')
+        try:
+            if got.serialize() != raw:
+                bad('serialize-roundtrip')
+        except Exception as e:          # noqa
+            bad('serialize-raises', error=repr(e))
         ok = (got.version == tx.version and got.locktime == tx.locktime
               and [(bytes(i.prev_hash), i.prev_idx, bytes(i.script), i.sequence)
                    for i in got.inputs] == tx.inputs
